@@ -9,9 +9,11 @@ from . import ser_common as sc
 from . import c01_ext as cx
 
 LEVEL = "proof"
+# theorems that tie the chain translated from the current source to the model: built and audited on their own
+EXTRA_PROPS = ["QuantemModel.Props.C01Tie"]
 MANIFEST_ENTRY = {
     "category": "proof",
-    "text": "Lean 4 theorem `roundtrip` (structural induction over the whole value universe, any depth/width/mix): decode(encode v) = canon v for every well-formed object graph of the executable model of serialize.py (ndarray fast path with NumPy promotion, empty/0-d arrays, path flags, container and object restoration loops), plus the fixed point of a second save/load (`roundtrip_fixed`) and attribute-name exactness (`attr_names_exact`). The type-dispatch chain of _serialize_value is translated mechanically from the current source on every run (harness/translator/serdispatch2lean.py -> Generated/SerializeDispatch.lean) and proved equal to the hand model for every combination of the 30 isinstance/hasattr facts (`generated_dispatch_eq_model`); every supported value kind reaches its own branch (`generated_dispatch_kind`), the chain is first-match (`dispatch_first_match`), the kinds for which the order decides are listed (`order_decides`), and what `encode` stores shows that branch (`encode_follows_dispatch`). The argument checks of save() are modelled check by check (`resolveSave_ok_iff`: accepted exactly for level None/0..9, store zip or dir with an extension-less path, target absent or mode 'o'; `resolveSave_level_independent`), and the round trip and the fixed point are proved over every HISTORY of save / load / print_file calls on shared targets, rejected and raising calls included (`roundtrip_history`, `fixed_point_history`, `raised_call_is_noop`, `hstep_frame`). The model is tied to the code on every run by differential round trips of generated graphs through the real save()/load() (zip and dir stores, all compression levels, str/Path, keyword and positional calls), by call histories on shared targets (save, read, overwrite with another graph, rejected / raising saves, in-memory mutation of sources and of loaded objects), by the argument-check grid, by the facts and the branch of real objects of every kind, and the property's own equality is evaluated on the real results as the failing-input search.",
+    "text": "Lean 4 theorem `roundtrip` (structural induction over the whole value universe, any depth/width/mix): decode(encode v) = canon v for every well-formed object graph of the executable model of serialize.py (ndarray fast path with NumPy promotion, empty/0-d arrays, path flags, container and object restoration loops), plus the fixed point of a second save/load (`roundtrip_fixed`) and attribute-name exactness (`attr_names_exact`). The type-dispatch chain of _serialize_value is translated mechanically from the current source on every run (harness/translator/serdispatch2lean.py -> Generated/SerializeDispatch.lean) and proved equal to the hand model for every CONSISTENT combination of the 30 isinstance/hasattr facts (`generated_dispatch_eq_model` in Props/C01Tie.lean; `Consistent` = the subclass / attribute relations that hold for every Python object, checked on every real object of the dispatch stream); every supported value kind reaches its own branch (`generated_dispatch_kind`), the chain is first-match (`dispatch_first_match`), the kinds for which the order decides are listed (`order_decides`), and what `encode` stores shows that branch (`encode_follows_dispatch`). The argument checks of save() are modelled check by check (`resolveSave_ok_iff`: accepted exactly for level None/0..9, store zip or dir with an extension-less path, target absent or mode 'o'; `resolveSave_level_independent`), and the round trip and the fixed point are proved over every HISTORY of save / load / print_file calls on shared targets, rejected and raising calls included (`roundtrip_history`, `fixed_point_history`, `raised_call_is_noop`, `hstep_frame`). The model is tied to the code on every run by differential round trips of generated graphs through the real save()/load() (zip and dir stores, all compression levels, str/Path, keyword and positional calls), by call histories on shared targets (save, read, overwrite with another graph, rejected / raising saves, in-memory mutation of sources and of loaded objects), by the argument-check grid, by the facts and the branch of real objects of every kind, and the property's own equality is evaluated on the real results as the failing-input search.",
     "note": "Trusted: Lean kernel + standard axioms; hand model validated by sampled correspondence only; the dispatch translator (~200 lines, cross-checked by the dispatch stream on real objects); the table of facts per value kind (`featOf`) is measured on real objects on every run; torch.save/dill payloads are opaque tokens (fidelity observed via dtype/shape/values/requires_grad fingerprints), zarr/blosc/JSON/zipfile return what was written; in the history model a target holds what the last save that returned normally wrote (staging + install: C08's theorems), so store / compression / path-type independence is proved only as far as `encode` and `resolveSave` do not depend on them and is otherwise MEASURED (every graph on both stores, random level and path type, thorough tier all 11 levels); sequence elements are positional children in the value model; the str(i)/int(k) key layer is modelled separately (Model/SeqKeys.lean), proved to be the identity on every list in every storage order (seqDecode_keyed_perm) and compared with the real container code directly. Recorded findings: numeric-seq-int-float-precision, dict-key-not-a-zarr-node-name, ndarray-non-native-byteorder.",
     "technique": "Lean 4 proof (structural induction on nested value/tree types; invariants over call histories) + source-to-Lean translation of the dispatch chain + model-vs-implementation correspondence",
 }
